@@ -61,6 +61,11 @@ impl DeleteVector {
         self.deletes.clone()
     }
 
+    /// Whether this delete vector deletes `row_id` (`deletes` is sorted).
+    pub fn contains(&self, row_id: u32) -> bool {
+        self.deletes.binary_search(&row_id).is_ok()
+    }
+
     pub fn new(dv_id: u64, rowset_id: u32, deletes: Vec<DeleteRecord>) -> Self {
         let mut deletes = deletes.into_iter().map(|x| x.row_id).collect_vec();
         deletes.sort_unstable();
